@@ -60,6 +60,42 @@ fn certified_via_map_data(good: &[u8], img: &[u8]) -> Result<Option<&'static str
     })
 }
 
+/// A container whose bytes change under an open FST: two generations of the same length behind one AsRef (the safe stand-in for a
+/// memory map whose file is rewritten, a double-buffered store, a buffer patched in place).
+pub struct TwoGen {
+    pub old: Vec<u8>,
+    pub new: Vec<u8>,
+    pub use_new: std::sync::atomic::AtomicBool,
+}
+impl AsRef<[u8]> for TwoGen {
+    fn as_ref(&self) -> &[u8] {
+        if self.use_new.load(std::sync::atomic::Ordering::SeqCst) {
+            &self.new
+        } else {
+            &self.old
+        }
+    }
+}
+
+/// the bytes under an open, already verified container are altered (outside the stored checksum itself, which the container
+/// read when it was opened): a later verify() must not return Ok
+fn certified_after_change_underneath(good: &[u8], img: &[u8]) -> Result<Option<&'static str>, String> {
+    guard(|| {
+        let f = match Fst::new(TwoGen { old: good.to_vec(), new: img.to_vec(), use_new: std::sync::atomic::AtomicBool::new(false) }) {
+            Ok(f) => f,
+            Err(_) => return None,
+        };
+        if f.verify().is_err() || f.verify().is_err() {
+            return Some("verify() on the unchanged built bytes fails (first or repeated call)");
+        }
+        f.as_inner().use_new.store(true, std::sync::atomic::Ordering::SeqCst);
+        match f.verify() {
+            Ok(()) => Some("verify() returns Ok on a container that was verified before its bytes were altered underneath"),
+            Err(_) => None,
+        }
+    })
+}
+
 fn outcome_class(img: &[u8]) -> &'static str {
     match Fst::new(img) {
         Err(_) => "outcome:open-rejected",
@@ -114,6 +150,13 @@ fn mutate_all(case: &Case, bytes: &[u8], exhaustive_values: bool, rng: &mut Rng,
             // every 4th mutant is additionally pushed through the map_data route (always in the footer region)
             let via = if v % 4 == 1 || pos + 20 >= len { certified_via_map_data(bytes, &img) } else { Ok(None) };
             let direct = certified(&img);
+            let via = match via {
+                Ok(None) if pos + 4 < len && (v % 16 == 3 || pos < 16) => {
+                    ev.count("mutants:bytes-altered-under-an-open-verified-container");
+                    certified_after_change_underneath(bytes, &img)
+                }
+                other => other,
+            };
             let both = match (direct, via) {
                 (Err(p), _) | (_, Err(p)) => Err(p),
                 (Ok(Some(w)), _) | (Ok(None), Ok(Some(w))) => Ok(Some(w)),
@@ -464,7 +507,7 @@ pub fn run(ctx: &Ctx) -> i32 {
     });
     let mut ev = ev;
     cli_verify(ctx, &mut ev);
-    let mut floors: Vec<(&str, u64)> = vec![("cli-verify:runs-with-a-corrupted-file", 100), ("cli-verify:runs-with-only-good-files", 20), ("built-fsts-verified", 1000), ("built-fsts-verified:chunked-sink", 20), ("mutants:version", 1000), ("mutants:type", 1000), ("mutants:body", 1000), ("mutants:len", 1000), ("mutants:root-addr", 1000), ("mutants:checksum", 1000), ("fastpath:lengths", 4000), ("fastpath:multi-megabyte-images", 24), ("fastpath:forged-special-checksum-values", 100), ("fastpath:misaligned-views", 500)];
+    let mut floors: Vec<(&str, u64)> = vec![("cli-verify:runs-with-a-corrupted-file", 100), ("cli-verify:runs-with-only-good-files", 20), ("built-fsts-verified", 1000), ("built-fsts-verified:chunked-sink", 20), ("mutants:version", 1000), ("mutants:type", 1000), ("mutants:body", 1000), ("mutants:len", 1000), ("mutants:root-addr", 1000), ("mutants:checksum", 1000), ("fastpath:lengths", 4000), ("mutants:bytes-altered-under-an-open-verified-container", 1000), ("fastpath:multi-megabyte-images", 24), ("fastpath:forged-special-checksum-values", 100), ("fastpath:misaligned-views", 500)];
     let names: Vec<String> = (0..16).map(|i| format!("fastpath:len-mod-16={}", i)).collect();
     for nm in &names {
         floors.push((nm.as_str(), 100));
@@ -474,7 +517,7 @@ pub fn run(ctx: &Ctx) -> i32 {
         ev,
         Spec {
             level: "fault_enumeration",
-            rule: "five monitors. (e) the command line gate: `fst verify f1 [f2 f3]` (subprocess, the binary built from the working tree) must exit 0 over freshly built files and non-zero whenever one argument - first, middle or last - is a single-byte mutant (version incl. 3->1/2, type, body, len, root address, checksum regions in rotation). (a,b) one evaluation = one built FST (shared pool, two front ends, plus hostile chunked sinks): verify() must be Ok and the trailing 4 bytes must equal the masked CRC-32C of all preceding bytes computed by a bit-at-a-time reference. (c) one evaluation = one mutated image: for small FSTs EVERY offset x EVERY one of the 255 other byte values, plus bit flips sampled over corpus FSTs: the mutant must fail to open or fail verify() (never certified), both when opened directly and (every 4th mutant, all footer mutants) when it arrives through map_data on an FST opened from the good bytes; 2-4 byte bursts are run for panics only. (d) for every length 36..4200 (thorough 20000) a synthetic version-3 image with random body and reference checksum must verify (all lengths mod 16, all tail lengths of the slice-by-16 path; plus images of 4, 4.06 and 5 MiB - thorough also 8 and 16 MiB - in every residue of the length mod 8) and must not verify after one bit flip; images are also verified as sub-slices at odd addresses, and for every 37th length the body is forged (GF(2) solve) so that the CORRECT stored checksum is exactly 0, 1, 0x80000000 or 0xFFFFFFFF; non-trivial = every evaluation; distinct = by construction (fst, offset, value) / fingerprint",
+            rule: "five monitors. (e) the command line gate: `fst verify f1 [f2 f3]` (subprocess, the binary built from the working tree) must exit 0 over freshly built files and non-zero whenever one argument - first, middle or last - is a single-byte mutant (version incl. 3->1/2, type, body, len, root address, checksum regions in rotation). (a,b) one evaluation = one built FST (shared pool, two front ends, plus hostile chunked sinks): verify() must be Ok and the trailing 4 bytes must equal the masked CRC-32C of all preceding bytes computed by a bit-at-a-time reference. (c) one evaluation = one mutated image: for small FSTs EVERY offset x EVERY one of the 255 other byte values, plus bit flips sampled over corpus FSTs: the mutant must fail to open or fail verify() (never certified), both when opened directly, (every 4th mutant, all footer mutants) when it arrives through map_data on an FST that was opened from the good bytes and verified, and (every 16th mutant) when the bytes of an open, verified container change underneath it; 2-4 byte bursts are run for panics only. (d) for every length 36..4200 (thorough 20000) a synthetic version-3 image with random body and reference checksum must verify (all lengths mod 16, all tail lengths of the slice-by-16 path; plus images of 4, 4.06 and 5 MiB - thorough also 8 and 16 MiB - in every residue of the length mod 8) and must not verify after one bit flip; images are also verified as sub-slices at odd addresses, and for every 37th length the body is forged (GF(2) solve) so that the CORRECT stored checksum is exactly 0, 1, 0x80000000 or 0xFFFFFFFF; non-trivial = every evaluation; distinct = by construction (fst, offset, value) / fingerprint",
             assumptions: vec!["version byte 3->1/2 mutants open and report ChecksumMissing: that is 'not certified', as the statement's last clause requires".into()],
             floors,
             exhaustive: Some(true),
